@@ -16,7 +16,8 @@ from odl.space.pspace import (ProductSpaceConstWeighting, ProductSpaceArrayWeigh
                               ProductSpaceCustomNorm, ProductSpaceCustomDist)
 from odl.space.weighting import ConstWeighting, ArrayWeighting, CustomInner, CustomNorm, CustomDist
 
-DT = {'f32': 'float32', 'f64': 'float64', 'c64': 'complex64', 'c128': 'complex128', 'i32': 'int32', 'i64': 'int64'}
+DT = {'f16': 'float16', 'f32': 'float32', 'f64': 'float64', 'c64': 'complex64', 'c128': 'complex128', 'i32': 'int32',
+      'i64': 'int64'}
 DTR = {v: k for k, v in DT.items()}
 INF = [1, 0]
 
@@ -220,7 +221,7 @@ class Builder(object):
         w = d['sub'][0]
         dtn = DT[d['s']]
         spell = {'float64': float, 'complex128': complex, 'int64': int, 'float32': np.float32,
-                 'complex64': np.dtype('complex64'), 'int32': 'i4'}[dtn]
+                 'complex64': np.dtype('complex64'), 'int32': 'i4', 'float16': np.float16}[dtn]
         if not w['cls'].startswith('TW'):
             return odl.tensor_space(shape, dtype=spell, weighting=self.weighting(w, tuple(shape), 'float64'))
         ex = qf(w['q'][0][0])
